@@ -1,6 +1,7 @@
 import CaddyModel.Util.DrvMain
 import CaddyModel.C16.Driver
 import CaddyModel.C16.Witness
+import CaddyModel.C16.BindProps
 
 def main (args : List String) : IO Unit :=
-  CaddyModel.drvMain "C16" CaddyModel.C16.handle CaddyModel.C16.witnessLines args
+  CaddyModel.drvMain "C16" CaddyModel.C16.handle (CaddyModel.C16.witnessLines ++ CaddyModel.C16.bindWitnessLines) args
